@@ -271,6 +271,43 @@ theorem request_is_write_then_read (c : Client) (pre post : List Op) (m : Bytes)
 example : (crun {} [.feed [0x33], .read, .feed [0x65, 0x0A, 0x31, 0x30, 0x0A, 0x32], .read, .read, .read, .eof, .read]).2 =
     [.ok, .res .pending, .ok, .res (.msg [0x3e]), .res (.msg [0x10]), .res .pending, .ok, .res .eos] := by decide
 
+/-! ### write side under flow control (`fstep`, `frun`) -/
+
+/-- **failed_write_half_consumes_nothing.**  For EVERY execution with flow control (the writer stalls and resumes anywhere;
+    writes and requests issued while it is stalled fail in their write half with a timeout / the caller's cancellation):
+    the client ends in exactly the state, and all its reads and successful requests return exactly the results, of the
+    execution without flow control in which each failed request is a plain `write` - the failed exchange has queued its
+    line and consumed nothing from the reader.  With `client_trace_spec` / `client_reads_in_order` (about `crun`) this
+    gives: the reads still return the peer's lines in order, each once. -/
+theorem failed_write_half_consumes_nothing (f : FClient) (ops : List FOp) :
+    (frun f ops).1.c = (crun f.c (eraseFlow f.stalled ops)).1 ∧
+    freadResults (frun f ops).2 = readResults (crun f.c (eraseFlow f.stalled ops)).2 := by
+  induction ops generalizing f with
+  | nil => simp [frun, crun, eraseFlow, freadResults, readResults]
+  | cons op ops ih =>
+    cases op with
+    | stall => simpa [frun, fstep, eraseFlow, freadResults] using ih { f with stalled := true }
+    | resume => simpa [frun, fstep, eraseFlow, freadResults] using ih { f with stalled := false }
+    | base o =>
+      cases hs : f.stalled <;> cases o <;>
+        simp [frun, fstep, eraseFlow, eraseOp, crun, cstep, freadResults, readResults, hs, ih] <;>
+        (split <;> simp [freadResults, readResults, ih])
+
+/-- a request whose write half fails leaves the reader alone: the next read returns what a read in its place would
+    have returned (and the request line is queued exactly once) -/
+theorem failed_request_then_read (f : FClient) (hs : f.stalled = true) (m : Bytes) :
+    (fstep (fstep f (.base (.request m))).1 (.base .read)).2 = (fstep f (.base .read)).2 ∧
+    (fstep f (.base (.request m))).1.c.out = f.c.out ++ enc m ∧
+    (fstep f (.base (.request m))).2 = .wtimeout := by
+  simp [fstep, hs, cstep]
+
+/-- non-vacuity: a message is buffered, the writer stalls, a request fails in its write half, a second message arrives,
+    the writer resumes: the reads return both messages in order, the request after that gets the third -/
+example : (frun {} [.base (.feed (enc [0x3e, 0x00])), .stall, .base (.request [0x10, 0x01]), .base (.feed (enc [0xf1])), .resume,
+      .base .read, .base .read, .base .read, .base (.feed (enc [0x50])), .base (.request [0x11])]).2 =
+    [.base .ok, .ok, .wtimeout, .base .ok, .ok, .base (.res (.msg [0x3e, 0x00])), .base (.res (.msg [0xf1])),
+      .base (.res .pending), .base .ok, .base (.res (.msg [0x50]))] := by decide
+
 /-! ### obligations against the tables regenerated from the code (`gen/c19_lines.py` -> `Gen/C19Lines.lean`) -/
 
 /-- the code facts the model rests on, as read off the AST on this run: `write` hands `hexlify(data) + b"\n"` to the
